@@ -11,6 +11,10 @@ pub type Tid = usize;
 
 /// PCT fairness bound (scheduling points one thread may run while others are runnable).
 const FAIR_RUN: u64 = 4_000;
+/// PCT only: a thread that has been runnable for this many scheduling points without getting the token
+/// runs next (no real scheduler starves a runnable thread forever; a third thread that wakes up
+/// periodically used to reset the in-a-row count above and let one spinner keep the token for good)
+const AGE_LIMIT: u64 = 30_000;
 
 /// xoshiro256** seeded through splitmix64.
 #[derive(Clone, Debug)]
@@ -138,6 +142,8 @@ struct Slot {
     st: TState,
     parker: Arc<Parker>,
     pthread: u64,
+    /// scheduling point at which this thread last held the token or was not runnable
+    last_ran: u64,
     sigq: VecDeque<(i32, u32)>,
     /// simulated signal mask (bit n = signal n blocked); only the queued signals honour it
     sigmask: u64,
@@ -433,12 +439,24 @@ impl State {
                 } else {
                     self.pct_run = 0;
                 }
+                // blocked threads are not starving
+                let now_pt = self.points;
+                for (i, t) in self.threads.iter_mut().enumerate() {
+                    if !runnable.contains(&i) {
+                        t.last_ran = now_pt;
+                    }
+                }
                 let mut best = runnable[0];
                 for t in &runnable {
                     if self.threads[*t].prio > self.threads[best].prio {
                         best = *t;
                     }
                 }
+                // aging: the longest-starved runnable thread goes first once it exceeds the limit
+                if let Some(old) = runnable.iter().copied().filter(|t| now_pt.saturating_sub(self.threads[*t].last_ran) > AGE_LIMIT).min_by_key(|t| self.threads[*t].last_ran) {
+                    best = old;
+                }
+                self.threads[best].last_ran = now_pt;
                 best
             }
             Strategy::RoundRobin { q } => match cur {
@@ -844,6 +862,7 @@ pub(crate) fn register_thread(name: String) -> Spawned {
         st: TState::Runnable,
         parker: Arc::new(Parker::new()),
         pthread: 0,
+        last_ran: 0,
         sigq: VecDeque::new(),
         sigmask: 0,
         wake: Wake::None,
@@ -1102,6 +1121,7 @@ pub fn start(cfg: Config) {
         st: TState::Runnable,
         parker: Arc::new(Parker::new()),
         pthread: unsafe { libc::pthread_self() } as u64,
+        last_ran: 0,
         sigq: VecDeque::new(),
         sigmask: 0,
         wake: Wake::None,
